@@ -7,7 +7,7 @@
  *   event log          NQV_LOG=<file>     one JSON line per observed call (appended, atomic writes)
  *                      NQV_TRACE=<letters> classes to observe: m mutations, r reads, s select,
  *                                         d directory reads, p process, a alarm, i identity, l locks,
- *                                         o read-only opens below the home
+ *                                         o read-only opens below the home, t stat/lstat below the home
  *   fault plan         NQV_PLAN=<prog>:<k>:<action>[;...]  at the k-th counted call (classes in
  *                      NQV_COUNT, default "m") of a process whose program name is <prog> (or *):
  *                      kill | fail=<errno> | short=<n>
@@ -364,6 +364,15 @@ static int under_home_fd(int fd)
   return !strncmp(b, home, homelen);
 }
 static unsigned char wropen[1024];
+static unsigned char rdopen[1024];   /* read-only descriptors of regular files below the home: atime follows the virtual clock */
+static void stamp_atime(int fd)
+{
+  struct timespec ts[2];
+  if (!sh) return;
+  ts[0].tv_sec = sh->vnow; ts[0].tv_nsec = 0;
+  ts[1].tv_sec = 0; ts[1].tv_nsec = UTIME_OMIT;
+  futimens(fd, ts);
+}
 static void stamp(int fd)
 {
   struct timespec ts[2];
@@ -400,7 +409,7 @@ static int open_common(int which, int dirfd, const char *path, int flags, mode_t
     else if (which == 1) { NEED(open64); fd = r_open64(path, flags, mode); }
     else { NEED(openat); fd = r_openat(dirfd, path, flags, mode); }
     se = errno;
-    if (fd >= 0 && fd < 1024) { fdkind[fd] = 0; wropen[fd] = 0; }
+    if (fd >= 0 && fd < 1024) { fdkind[fd] = 0; wropen[fd] = 0; rdopen[fd] = (sh && kind_of(fd) == 1 && under_home_fd(fd)); }
     if (fd >= 0) { struct stat st; if (fstat(fd, &st) == 0) { ev_int(&e, "ino", st.st_ino); ev_int(&e, "mtime", st.st_mtime); } }
     ev_int(&e, "fd", fd); post('o', &e, &d, fd, se);
     errno = se;
@@ -420,7 +429,8 @@ static int open_common(int which, int dirfd, const char *path, int flags, mode_t
   {
     int se = errno;
     if (fd >= 0 && fd < 1024) {
-      fdkind[fd] = 0; wropen[fd] = 0;
+      fdkind[fd] = 0; wropen[fd] = 0; rdopen[fd] = 0;
+      if ((flags & O_ACCMODE) == O_RDONLY && sh && kind_of(fd) == 1 && under_home_fd(fd)) rdopen[fd] = 1;
       if ((flags & O_ACCMODE) != O_RDONLY && sh && kind_of(fd) == 1 && under_home_fd(fd)) {
         wropen[fd] = 1;
         if (flags & O_CREAT) stamp(fd);
@@ -467,6 +477,7 @@ int close(int fd)
     pre('m', &e, &d);
   }
   if (fd >= 0 && fd < 1024 && wropen[fd]) { stamp(fd); wropen[fd] = 0; }
+  if (fd >= 0 && fd < 1024 && rdopen[fd]) { stamp_atime(fd); rdopen[fd] = 0; }
   if (w && d.act == ACT_FAIL) {
     /* the descriptor is released as the kernel would, the error is reported to the caller */
     r_close(fd); if (fd < 1024) fdkind[fd] = 0;
@@ -482,7 +493,7 @@ int dup2(int a, int b)
   int r;
   shim_init(); NEED(dup2);
   r = r_dup2(a, b);
-  if (r >= 0 && r < 1024) { fdkind[r] = 0; wropen[r] = 0; }
+  if (r >= 0 && r < 1024) { fdkind[r] = 0; wropen[r] = rdopen[r] = 0; }
   return r;
 }
 
@@ -535,6 +546,7 @@ ssize_t read(int fd, void *buf, size_t n)
   if (inited && readchunk > 0 && fd <= 1 && n > (size_t) readchunk) n = readchunk;
   if (!inited || fd == logfd || fd == gatefd || !watching('r')) return r_read(fd, buf, n);
   ev_begin(&e, "read"); ev_int(&e, "fd", fd); ev_int(&e, "len", n);
+  if (kind_of(fd) == 1) ev_fdpath(&e, fd);
   pre('r', &e, &d);
   if (d.act == ACT_FAIL) { errno = d.err; post('r', &e, &d, -1, d.err); return -1; }
   if (d.act == ACT_SHORT && (size_t) d.n < n) n = d.n;
@@ -633,6 +645,26 @@ int utimes(const char *p, const struct timeval *t)
   if (d.act == ACT_FAIL) { errno = d.err; post('m', &e, &d, -1, d.err); return -1; }
   r = r_utimes(p, t); { int se = errno; post('m', &e, &d, r, se); errno = se; } return r;
 }
+
+/* ----- stat (class t): observed / faultable only for paths below the home ------------------ */
+static int stat_common(int which, const char *p, struct stat *st)
+{
+  static int (*r_stat)(const char *, struct stat *); static int (*r_lstat)(const char *, struct stat *);
+  int r; struct ev e; struct decision d; d.act = ACT_GO;
+  shim_init();
+  if (!r_stat) r_stat = sym("stat");
+  if (!r_lstat) r_lstat = sym("lstat");
+  if (!inited || !watching('t') || !(p[0] != '/' || (homelen && !strncmp(p, home, homelen))))
+    return which ? r_lstat(p, st) : r_stat(p, st);
+  ev_begin(&e, which ? "lstat" : "stat"); ev_path(&e, "path", p);
+  pre('t', &e, &d);
+  if (d.act == ACT_FAIL) { errno = d.err; post('t', &e, &d, -1, d.err); return -1; }
+  r = which ? r_lstat(p, st) : r_stat(p, st);
+  { int se = errno; post('t', &e, &d, r, se); errno = se; }
+  return r;
+}
+int stat(const char *p, struct stat *st) { return stat_common(0, p, st); }
+int lstat(const char *p, struct stat *st) { return stat_common(1, p, st); }
 
 /* ----- directory reads -------------------------------------------------------------------- */
 DIR *opendir(const char *p)
